@@ -212,13 +212,16 @@ class FuncView:
             dnodes.setdefault(self.node(st), []).append((st, val))
         res = []
         for dn, items in dnodes.items():
-            others = [n for n in dnodes if n is not dn]
+            # the use statement may itself redefine the name (x = f(x)): it reads the old value
+            others = [n for n in dnodes if n is not dn and n is not use]
             if dn is use:
+                if use in self.cfg.reachable([dn], avoid=others):
+                    res.append(items[-1])       # loop-carried
                 continue
             if use in self.cfg.reachable([dn], avoid=others):
                 res.append(items[-1])
         if norm.is_param(self.func, name) or not defs:
-            if use in self.cfg.reachable([self.cfg.entry], avoid=list(dnodes)):
+            if use in self.cfg.reachable([self.cfg.entry], avoid=[n for n in dnodes if n is not use]):
                 res.append((None, None))
         return res
 
